@@ -318,6 +318,10 @@ class BuildDirs:
             # place
             self._handle_dir_exists(os.path.dirname(norm_cased_dir))
             return False
+        except OSError:
+            # We still don't know whether the directory is removed
+            self._maybe_removed_dirs.add(norm_cased_dir)
+            raise
 
         for subfile in subfiles:
             absolute_subfile = os.path.join(
@@ -335,7 +339,13 @@ class BuildDirs:
                     self._handle_dir_exists(absolute_subfile)
                     return False
             elif absolute_subfile in self._maybe_removed_dirs:
-                if not self._check_maybe_removed_dir(absolute_subfile):
+                try:
+                    is_removed = self._check_maybe_removed_dir(
+                        absolute_subfile)
+                except OSError:
+                    self._maybe_removed_dirs.add(norm_cased_dir)
+                    raise
+                if not is_removed:
                     return False
             else:
                 if os.path.isdir(absolute_subfile):
